@@ -92,6 +92,10 @@ func buildFromDefinition(def *configDefinition, lc *loaderContext) (cfg *Config,
 		}
 	}
 
+	if err = checkPipelineInclusion(def.Pipelines); err != nil {
+		return nil, err
+	}
+
 	// to allow pipeline-to-pipeline links
 	for k := range def.Pipelines {
 		cfg.Pipelines[k], err = scheduler.NewExecutionGraph()
@@ -113,6 +117,45 @@ func buildFromDefinition(def *configDefinition, lc *loaderContext) (cfg *Config,
 	cfg.Variables = cfg.Variables.Merge(variables.FromMap(def.Variables))
 
 	return cfg, nil
+}
+
+// checkPipelineInclusion rejects pipelines that include themselves, directly or
+// through other pipelines: running one would never finish.
+func checkPipelineInclusion(pipelines map[string][]*stageDefinition) error {
+	const (
+		visiting = 1
+		done     = 2
+	)
+	state := make(map[string]int)
+	var visit func(name string) error
+	visit = func(name string) error {
+		switch state[name] {
+		case visiting:
+			return fmt.Errorf("pipeline %s includes itself", name)
+		case done:
+			return nil
+		}
+		state[name] = visiting
+		for _, stage := range pipelines[name] {
+			if stage == nil || stage.Task != "" || stage.Pipeline == "" {
+				continue
+			}
+			if _, ok := pipelines[stage.Pipeline]; !ok {
+				continue // reported as an unknown pipeline when the stage is built
+			}
+			if err := visit(stage.Pipeline); err != nil {
+				return err
+			}
+		}
+		state[name] = done
+		return nil
+	}
+	for name := range pipelines {
+		if err := visit(name); err != nil {
+			return err
+		}
+	}
+	return nil
 }
 
 func defaultConfigVariables() variables.Container {
